@@ -143,6 +143,14 @@ def sql_cases(rng, n):
             p = ("join", None, True, False, l, r) if rng.random() < 0.5 else ("join", None, True, False, r, l)
             if rng.random() < 0.4:
                 p = ("un", ("slice", rng.choice([0, 1]), None), mp.DEFAULT, ("un", ("sort", sp.total_sort_terms(rng, set(lcols) | set(rcols))), mp.DEFAULT, p))
+        elif k % 3 == 2 and rng.random() < 0.3:
+            # DISTINCT over columns none of which is a key column (every selected column takes part in SQL's DISTINCT)
+            kk, v, w2 = K(1), N(1), N(2)
+            rows = [{kk: i, v: 10 * (i % 3), w2: i % 2} for i in rng.sample(range(1, 8), rng.choice([3, 4, 5]))]
+            p = ("un", ("dedup",), mp.DEFAULT, ("un", ("proj", [v] if rng.random() < 0.6 else [v, w2]), mp.DEFAULT,
+                 ("leaf", 1, sp.SQL, [kk, v, w2], rows, (len(rows), len(rows)))))
+            if rng.random() < 0.4:
+                p = ("un", ("slice", 1, None), mp.DEFAULT, p)
         elif k % 3 == 1 and rng.random() < 0.5:
             # a join of operands that share NO column, with exact positive bounds and a predicate across them that keeps
             # all, some or none of the pairs; sometimes narrowed to an existence check
